@@ -1642,6 +1642,9 @@ def run(ctx):
     dis = ctx.cases("circ", header, cases)
     for i, d in dis[:5]:
         ctx.log("model/impl disagree on", d)
+    # clauses (d),(e): circuit tensor network / TN simulator theorems (coq/props/C05n.v) and their tie
+    from checks import circnet_cases
+    circnet_cases.run(ctx)
 
 
 def replay(ctx, data):
